@@ -90,14 +90,23 @@ gen_claim("C19", "Theorem C19_valid_path_alloc_free (from gen_exact: executed al
           "testing.AllocsPerRun for Validate(), Validate<T>(t), Validate<T>Context(Background, t) must be 0 for every valid value of the C01-C07 corpora and "
           "for long strings / large collections. Partial: escape analysis and stdlib internals are measured, not modelled.", "DESIGN.md §5 C19")
 CLAIMS["C10"] = dict(
-    category="exploration",
-    text="Behavioural: every expression of a typed CEL grammar (330 quick / 2500 thorough; each its own package) that the generator accepts and whose "
-         "output compiles is run, compiled, against cel-go's evaluation of the same expression (value bound to the field, this to the struct) on value "
-         "grids; every binding on which cel-go yields a boolean must agree, except inside the open known-finding classes (D14 size counts bytes, D15 "
-         "narrow-integer wrap, D16 division by zero, D23 map comprehension). Expressions the translator cannot render must fail at generation or "
-         "compile time (counted). The Coq stage of DESIGN.md section 5 C10 (reference semantics + ideal translation + certificates) is not built yet.",
-    ref="DESIGN.md §5 C10", note="Trusted: cel-go v0.26.1 as reference, the Go compiler as judge of loud failure, lib/celgen.py grammar and grids.",
-    technique="differential execution against the reference CEL implementation (Coq model of CEL pending)")
+    category="proof",
+    text="Theorem C10_translation_sound (Cel/Sound.v): for every CEL expression of the proved fragment (Cel/Typing.v cty + Cel/Sound.v stage predicate), every "
+         "struct value of the declared field types and any behaviour of the shared standard-library oracles, the condition produced by the translator "
+         "model (Cel/Translate.v, a node-for-node mirror of convertASTToGo) evaluates in the Go semantics (Cel/GoSem.v: typed integers with wrap-around, "
+         "untyped constants, panics) to a boolean that is the negation of the reference verdict (Cel/CelSem.v: cel-go's interpreter with error "
+         "absorption) whenever the reference yields a boolean; it never panics and is never ill-typed. C10_emitted_condition_sound transfers this to the "
+         "condition govalid actually emitted whenever the kernel accepts its certificate; C10_unrenderable_stops_generation: constructs without a rendering "
+         "stop generation. Tie on every run (360 quick / 2500 thorough expressions x value grids): cel-go's AST and go/parser's tree of every emitted "
+         "condition are translated into Coq terms; certificate emitted = model for EVERY generated expression (in or out of the fragment); generator "
+         "accepts <-> model generates; ceval vs cel-go and geval vs the compiled validator on every binding; compiled validator vs cel-go on every boolean "
+         "point. Outside the proved fragment (ternary, maps, size of strings, narrow arithmetic, division by a field, const float folding) only the "
+         "behavioural comparison applies; the open classes D14, D15, D23, D34 are exhibited as _refuted theorems and witnessed on every run.",
+    ref="DESIGN.md §5 C10", note="Trusted: Coq kernel (vm_compute certificates); Reals axioms via Flocq (named in the evidence); oracle hypotheses on regexp/time; "
+    "hand-written models of cel-go's interpreter and of Go expression semantics, both compared with the implementations on every run; harness translators "
+    "(internal/celx); cel-go's parser/checker as shared front end; the Go compiler as judge of loud failure.",
+    technique="Coq proof of translation soundness (logical relation between CEL values and Go values over a typed fragment) + per-run kernel-checked "
+              "certificates that the rebuilt govalid's emitted condition equals the translator model's + differential of both semantic models against cel-go and the compiled code")
 CLAIMS["C14"] = dict(
     text="Theorems C14_isolated / C14_order_insensitive / C14_pure on the GeneratorMemory state machine (Gen/Memory.v): whatever memory earlier structs, "
          "packages or runs left and in whatever order packages obtain the mutex, a struct's declarations are those of generating it alone. Tie: the rebuilt "
